@@ -41,6 +41,13 @@ def unauthorised(sc, n):
 
 
 CONFIG = {
+    'C01': {
+        'profiles': [('attest', 400, 6000), ('flows', 15, 400)],
+        'rules': [(r'VERIFY', 'V', None), (r'TX:(ReceiveMessage|ReplaceMessage|ReplaceDepositForBurn)$', 'R', r'^(ok|err|panic)')],
+        'monitors': [M.mon_c01],
+        'level_text': 'Theorems for every message, attestation, attester list, threshold and EVERY recovery function: the verifier accepts exactly when the threshold is non-zero, the attestation is exactly threshold-many 65-byte chunks, each chunk (27/28 normalised to 0/1) recovers over keccak256(message) to the hex decoding of an enabled attester string, and the signer addresses are strictly increasing; hence an accepted attestation carries threshold-many pairwise distinct enabled keys (no duplicate, twin or reordering passes), wrong lengths are rejected, the verifier never panics, and receive / both replacements succeed only if it accepts with the attesters and threshold read from the current store. Tied to the Go verifier by differential execution of honest attestations by real secp256k1 keys under 16 mutation operators, directly and through the handlers; the quorum rule is also recomputed on the implementation trace from go-ethereum recoveries made by the harness.',
+        'assumptions': ['not proved: that a recovered key means its holder signed (ECDSA unforgeability) and that honest signatures recover to the signer (exercised with real keys and both v encodings)'],
+    },
     'C02': {
         'profiles': [('receive-history', 60, 1500), ('flows', 25, 600), ('receive-matrix', 100, 2000)],
         'rules': [(r'TX:ReceiveMessage', 'R', None), (ANY, 'S', r'^nonce '), (r'Q:UsedNonces?$', 'QR', None), (r'EXPORT', 'X', r'^nonce ')],
